@@ -1,6 +1,8 @@
 package pos
 
 import (
+	"math/big"
+
 	sdk "github.com/pokt-network/posmint/types"
 	"github.com/pokt-network/posmint/x/pos/keeper"
 	"github.com/pokt-network/posmint/x/pos/types"
@@ -11,14 +13,28 @@ import (
 // exactly the staked amount leaves the account, enters the pool and is recorded as stake.
 func vHandlerStake(p string) {
 	e := keeper.VNewEnv(2)
-	bal := keeper.VSymInt("bal", 0, 1<<60)
+	// amounts up to 2^90: a stake whose consensus power no longer fits an int64 (stake / 10^6 > 2^63) makes the power-index
+	// key panic inside the handler; baseapp recovers the panic, and this fork does not roll a handler's writes back
+	hi := new(big.Int).Lsh(big.NewInt(1), 90)
+	bal := sdk.NewIntFromBigInt(zz.Big("bal", big.NewInt(0), hi))
 	e.Fund(e.Addrs[0], bal)
-	amt := keeper.VSymInt("amt", 0, 1<<60)
+	amt := sdk.NewIntFromBigInt(zz.Big("amt", big.NewInt(0), hi))
 	h := NewHandler(e.K)
 	preBal, prePool, preSupply := e.Bal(e.Addrs[0]), e.Pool(), e.Supply()
-	res := h(e.Ctx, types.MsgStake{PubKey: e.Pubs[0], Value: amt})
+	var res sdk.Result
+	panicked := false
+	func() {
+		defer func() {
+			if r := recover(); r != nil {
+				panicked = true
+			}
+		}()
+		res = h(e.Ctx, types.MsgStake{PubKey: e.Pubs[0], Value: amt})
+	}()
 	v, found := e.Val(0)
-	if res.IsOK() {
+	if panicked {
+		zz.Reach(p + ".handler.stake.panicked")
+	} else if res.IsOK() {
 		zz.Assert(p+".handler.stake.preconditions", amt.GTE(sdk.NewInt(e.K.MinimumStake(e.Ctx))) && amt.LTE(preBal))
 		zz.Assert(p+".handler.stake.records-exact-amount", found && v.StakedTokens.Equal(amt) && v.Status == sdk.Staked)
 		zz.Assert(p+".handler.stake.moves-exact-amount", preBal.Sub(e.Bal(e.Addrs[0])).Equal(amt) && e.Pool().Sub(prePool).Equal(amt))
